@@ -501,3 +501,6 @@ inst!(b_twoway_fwd_n3_8, [props=C12+C03 xprops=C05+C14 tier=quick cfg=x86std t=1
 inst!(b_twoway_rev_n3_8, [props=C12+C04 xprops=C05+C14 tier=quick cfg=x86std t=1800 role=twoway-rev uw=@TW:3:8;oracle:5], 4, blocks::twoway_n::<3, 8>(true));
 inst!(b_twoway_fwd_n4_7, [props=C12+C03 xprops=C05+C14 tier=quick cfg=x86std t=1800 role=twoway-fwd uw=@TW:4:7;oracle:6], 4, blocks::twoway_n::<4, 7>(false));
 inst!(b_twoway_rev_n4_7, [props=C12+C04 xprops=C05+C14 tier=quick cfg=x86std t=1800 role=twoway-rev uw=@TW:4:7;oracle:6], 4, blocks::twoway_n::<4, 7>(true));
+
+inst!(b_twoway_rev_n5_9, [props=C12+C04 xprops=C05+C14 tier=thorough cfg=x86std t=5400 role=twoway-rev uw=@TW:5:9;oracle:7], 4, blocks::twoway_n::<5, 9>(true));
+inst!(b_twoway_fwd_n5_9, [props=C12+C03 xprops=C05+C14 tier=thorough cfg=x86std t=5400 role=twoway-fwd uw=@TW:5:9;oracle:7], 4, blocks::twoway_n::<5, 9>(false));
